@@ -85,7 +85,27 @@ CDeep(s1, s2, b) == [tag |-> "deep", n |-> s1[2],
                                               P(AttrDot(L("parent"), "revindex"))>>, <<Text("e")>>, TRUE)>>,
                                        <<Text("-")>>, TRUE)>>, <<Text("E")>>, TRUE)>>]
 
+(* an else body (of an if, of an elseif chain, of a for) that itself begins or ends with a nested if and has more content:
+   an elseif is an else body consisting of exactly one if, anything else is not *)
+NestIf(b2, he2) == IfS(NameE(IF b2 THEN "t" ELSE "f"), <<Text("B")>>, IF he2 THEN <<Text("C")>> ELSE <<>>, he2)
+ElseBody(sh, b2) ==
+  CASE sh = 1 -> <<NestIf(b2, FALSE), Text("-tail")>>
+    [] sh = 2 -> <<NestIf(b2, TRUE), Text("-tail")>>
+    [] sh = 3 -> <<Text("pre-"), NestIf(b2, FALSE)>>
+    [] sh = 4 -> <<NestIf(b2, FALSE), NestIf(~b2, TRUE)>>
+    [] sh = 5 -> <<NestIf(b2, TRUE)>>
+    [] OTHER -> <<NestIf(b2, FALSE), P(NameE("x"))>>
+CElse(b1, b2, sh, host) ==
+  [tag |-> "else-nested", n |-> sh,
+   body |-> <<Text("<"),
+              CASE host = 1 -> IfS(BoolE(b1), <<Text("A")>>, ElseBody(sh, b2), TRUE)
+                [] host = 2 -> IfChain(<<[c |-> BoolE(FALSE), body |-> <<Text("A")>>], [c |-> BoolE(b1), body |-> <<Text("A2")>>]>>, ElseBody(sh, b2), TRUE)
+                [] host = 3 -> ForS("", "v", IF b1 THEN ArrN(1) ELSE ArrE(<<>>), NoE, <<Text("A")>>, ElseBody(sh, b2), TRUE)
+                [] OTHER -> IfS(BoolE(b1), ElseBody(sh, b2), <<Text("Z")>>, TRUE),
+              Text(">")>>]
+
 CaseSet ==
+  {CElse(b1, b2, sh, host) : b1 \in BOOLEAN, b2 \in BOOLEAN, sh \in 1..6, host \in 1..4} \cup
   {C1(s, he) : s \in Seqs, he \in BOOLEAN} \cup {C2(s, he) : s \in Seqs, he \in BOOLEAN}
   \cup {C3(s, c, he) : s \in Seqs, c \in Conds, he \in BOOLEAN}
   \cup {C4(s1, s2) : s1 \in Iterables, s2 \in Seqs} \cup {C5(s) : s \in Seqs} \cup {C6}
